@@ -580,3 +580,50 @@ Proof.
   apply timing_run_ok; auto. apply Forall_forall. intros x Hx. apply in_map_iff in Hx. destruct Hx as [a [<- Ha]].
   rewrite Forall_forall in H. destruct (H a Ha) as [Hw Hl]. split. now rewrite norm_acc_w. eapply norm_wf; eauto.
 Qed.
+
+(** * the accessor is a pure view of the register files (no hidden state) *)
+
+Lemma timing_read_is_view_s : forall st w i cnt lane,
+  i * 4 + soff (t_waves st w) + 4 * width cnt <= t_slen st ->
+  timing_read_reg st w (RS i) cnt lane = Some (mem_read (t_sreg st) (i * 4 + soff (t_waves st w)) (4 * width cnt)).
+Proof.
+  intros. unfold timing_read_reg. rewrite size_is_width, dlen_is_width by reflexivity.
+  replace (i * 4 + soff (t_waves st w) + 4 * width cnt <=? t_slen st) with true by lia.
+  unfold firstnN. rewrite firstn_all2 by (rewrite mem_read_length; lia). reflexivity.
+Qed.
+
+Lemma timing_read_is_view_v : forall st w i cnt lane,
+  simd (t_waves st w) < t_nsimd st ->
+  i * 4 + lane * t_bpl st + voff (t_waves st w) + 4 * width cnt <= t_vlen st ->
+  timing_read_reg st w (RV i) cnt lane =
+  Some (mem_read (t_vreg st (simd (t_waves st w))) (i * 4 + lane * t_bpl st + voff (t_waves st w)) (4 * width cnt)).
+Proof.
+  intros. unfold timing_read_reg. rewrite size_is_width, dlen_is_width by reflexivity.
+  replace (simd (t_waves st w) <? t_nsimd st) with true by lia.
+  replace (i * 4 + lane * t_bpl st + voff (t_waves st w) + 4 * width cnt <=? t_vlen st) with true by lia. cbn [andb].
+  unfold firstnN. rewrite firstn_all2 by (rewrite mem_read_length; lia). reflexivity.
+Qed.
+
+(** whatever wrote the files — the accessor, a load reply, the dispatcher, a
+    release —, a read returns what the wavefront's own bytes and special
+    registers hold now: two states that agree there give the same answer *)
+Lemma timing_read_only_storage : forall st1 st2 nw w r cnt lane,
+  layout_ok st1 nw -> w < nw ->
+  t_waves st2 w = t_waves st1 w -> t_slen st2 = t_slen st1 -> t_vlen st2 = t_vlen st1 ->
+  t_nsimd st2 = t_nsimd st1 -> t_bpl st2 = t_bpl st1 -> t_sp st2 w = t_sp st1 w ->
+  (forall a, own_s (t_waves st1 w) a -> t_sreg st2 a = t_sreg st1 a) ->
+  (forall a, own_v (t_waves st1 w) (simd (t_waves st1 w)) a ->
+             t_vreg st2 (simd (t_waves st1 w)) a = t_vreg st1 (simd (t_waves st1 w)) a) ->
+  wf_operand (nsgpr (t_waves st1 w)) (nvgpr (t_waves st1 w)) r cnt lane = true ->
+  timing_read_reg st2 w r cnt lane = timing_read_reg st1 w r cnt lane.
+Proof.
+  intros st1 st2 nw w r cnt lane L Hw Wv Sl Vl Ns Bp Sp Hs Hv Hwf.
+  destruct (L_in _ _ L w Hw) as [Ls [Lsimd Lv]]. pose proof (L_bpl _ _ L) as Lb. pose proof (L_vlen _ _ L) as Lvl.
+  unfold wf_operand in Hwf. apply andb_true_iff in Hwf. destruct Hwf as [Hsh Hi]. pose proof (width_pos cnt).
+  destruct r; try (unfold timing_read_reg; rewrite Sp; reflexivity).
+  - rewrite !timing_read_is_view_s by (rewrite ?Wv, ?Sl; lia). rewrite Wv. f_equal.
+    apply mem_read_ext. intros a Ha. apply Hs. unfold own_s. lia.
+  - rewrite !timing_read_is_view_v by (rewrite ?Wv, ?Vl, ?Ns, ?Bp, ?Lb; lia). rewrite Wv, Bp, Lb. f_equal.
+    apply mem_read_ext. intros a Ha. apply Hv. split; auto. exists lane. lia.
+  - reflexivity.
+Qed.
